@@ -4,6 +4,7 @@ import (
 	"io/fs"
 	"os"
 	"path/filepath"
+	"runtime/debug"
 	"sort"
 	"strings"
 	"syscall"
@@ -147,11 +148,13 @@ func (w *world) tick() {
 	if w.ticks > max {
 		w.res.Overrun = true
 		w.res.OverrunKind = "ticks"
+		w.res.Stack = string(debug.Stack())
 		finish(97, false)
 	}
 	if w.ticks&15 == 0 && rssBytes() > 384<<20 {
 		w.res.Overrun = true
 		w.res.OverrunKind = "memory"
+		w.res.Stack = string(debug.Stack())
 		finish(97, false)
 	}
 }
